@@ -10,6 +10,9 @@ callers (never alarmed on). Parentheses may appear inside atoms ("scf(60F)").
 import math
 import re
 
+#: multi-slash symbols whose left-to-right reading is not what the row means (decided by reading the row's name)
+MULTISLASH_NOT_READ = set()
+
 AMBIG = {"F": "farad", "C": "coulomb"}  # single letters that also abbreviate degF / degC in compounds
 
 SI_PREFIXES = {
@@ -40,10 +43,78 @@ def parse_factor(f, atoms, exclude, rowname):
     return None
 
 
+def parse_multislash(sym, atoms, rowname=""):
+    """Symbols with several '/' ('kgf/cm2/m', 'mg/l/mg/l', 'cp.m3/day/kgf/cm2', '(m3/m3)/K'): read left to right
+    as  first / second / third ...  where a run of '/'-separated pieces that is itself a registered compound
+    symbol ('kgf/cm2', 'mg/l', 'm3/m3') counts as ONE piece - longest such run first - and a parenthesised group
+    is one piece. Every piece must then decompose into registered atoms. None if it does not."""
+    if "^" in sym or "*" in sym:
+        return None
+    # split on '/' outside parentheses
+    pieces, depth, cur = [], 0, ""
+    for ch in sym:
+        if ch == "(":
+            depth += 1
+        elif ch == ")":
+            depth -= 1
+        if ch == "/" and depth == 0:
+            pieces.append(cur)
+            cur = ""
+        else:
+            cur += ch
+    pieces.append(cur)
+    if depth != 0 or len(pieces) < 3 and "(" not in sym:
+        return None
+    # merge runs that are registered compound symbols (longest first), never the whole symbol
+    merged, i = [], 0
+    while i < len(pieces):
+        best = None
+        for j in range(len(pieces), i + 1, -1):
+            cand = "/".join(pieces[i:j])
+            if cand != sym and cand in atoms:
+                best = j
+                break
+        if best:
+            merged.append("/".join(pieces[i:best]))
+            i = best
+        else:
+            merged.append(pieces[i])
+            i += 1
+    if len(merged) < 2:
+        return None
+    out = []
+    for k, piece in enumerate(merged):
+        sign = 1 if k == 0 else -1
+        if piece.startswith("(") and piece.endswith(")"):
+            piece = piece[1:-1]
+        if k == 0 and piece == "1":
+            continue
+        if piece in atoms and piece != sym:
+            if piece in AMBIG:
+                return "ambiguous"
+            out.append((1.0, piece, sign))
+            continue
+        sub = parse_symbol(piece, atoms, rowname)
+        if sub is None or sub == "ambiguous":
+            # a product of atoms / a single atom with exponent
+            sub = []
+            for f in piece.split("."):
+                pf = parse_factor(f, atoms, sym, rowname)
+                if pf is None or pf == "ambiguous":
+                    return pf
+                sub.append(pf)
+        out.extend((pre, a, sign * e) for pre, a, e in sub)
+    return out or None
+
+
 def parse_symbol(sym, atoms, rowname=""):
     """Decomposes a table symbol into [(prefix, atom, exp)] or returns None (not decomposable /
     atomic) or 'ambiguous'."""
-    if sym.count("/") > 1 or "^" in sym or "*" in sym:
+    if sym.count("/") > 1 or ("(" in sym and "/" in sym and sym.startswith("(")):
+        if sym in MULTISLASH_NOT_READ:
+            return None
+        return parse_multislash(sym, atoms, rowname)
+    if "^" in sym or "*" in sym:
         return None
     parts = sym.split("/")
     out = []
@@ -74,6 +145,10 @@ def digits_prec(x):
     mant = r.partition("e")[0]
     digits = mant.replace(".", "").lstrip("0")
     n = len(digits.rstrip("0")) or 1
+    if float(x).is_integer() and abs(x) >= 1e4 and "e" not in r:
+        # a large integer literal (86400, 31558150, 365.25 * 86400) is written to the unit: its trailing zeros
+        # are digits, not missing precision
+        n = max(n, len(str(int(abs(x)))))
     if n >= 15:
         return (n, 2.0**-52)
     e10 = math.floor(math.log10(abs(x)))
